@@ -24,7 +24,7 @@ func init() { core.Register(check{}) }
 func (check) ID() string    { return "C19" }
 func (check) Level() string { return "exploration" }
 func (check) Rule() string {
-	return "bounded-exhaustive enumeration, simplest first: all bool/byte/i16 values; i32/i64/double boundary families (every +-2^k+d |d|<=2, digit boundaries; every (sign,exponent) x 5 mantissa patterns); strings of every length 0..40 and 4095..4097 x 3 contents; every container/field header over all type codes x size alphabet; Go values <-> model for every shape of T(1) u T(2) x container size 0..3 x flag sets (WriteAny/ReadAny/WriteAnyWithDesc/ReadAnyWithDesc); Skip (Go and native) over T(1) u T(2) u T(3-subset) values; envelopes names x types x seq x ids x bodies. A case is non-trivial if it is distinct by (operation, input) and exercised a write+read or skip of at least one byte. Later additions: pooled readers / writers recycled after objects of 0..1 MiB, the BinaryEncoding twins (Encode*/Decode*, EncodeEmpty of every type into fresh, prefixed and dirty buffers). Round 8: sized Go key maps through WriteAnyWithDesc; fixed-offset decoders over slices with following bytes."
+	return "bounded-exhaustive enumeration, simplest first: all bool/byte/i16 values; i32/i64/double boundary families (every +-2^k+d |d|<=2, digit boundaries; every (sign,exponent) x 5 mantissa patterns); strings of every length 0..40 and 4095..4097 x 3 contents; every container/field header over all type codes x size alphabet; Go values <-> model for every shape of T(1) u T(2) x container size 0..3 x flag sets (WriteAny/ReadAny/WriteAnyWithDesc/ReadAnyWithDesc); Skip (Go and native) over T(1) u T(2) u T(3-subset) values; envelopes names x types x seq x ids x bodies. A case is non-trivial if it is distinct by (operation, input) and exercised a write+read or skip of at least one byte. Later additions: pooled readers / writers recycled after objects of 0..1 MiB, the BinaryEncoding twins (Encode*/Decode*, EncodeEmpty of every type into fresh, prefixed and dirty buffers). Round 8: sized Go key maps through WriteAnyWithDesc; fixed-offset decoders over slices with following bytes. Thorough tier: all 2^32 i32 values in blocks, +-2^k+d for |d|<=16 and two-byte patterns for i64, 70 mantissa patterns per (sign, exponent), every string length 0..300 and around 8 KiB / 64 KiB / 1 MiB, T(3) shapes for the generic readers / writers, container sizes up to 5."
 }
 
 func (check) Assumptions() []string {
@@ -51,16 +51,25 @@ type shapeGroup struct {
 	shapes []*tbin.Shape
 }
 
+// deep is set from the tier at the start of Groups / Enumerate: the thorough tier widens every family (all 2^32
+// i32 values in blocks, +-2^k+d for |d|<=16 and two-byte patterns for i64, 70 mantissa patterns per (sign, exponent),
+// every string length 0..300 and around 64 KiB / 1 MiB, T(3) shapes for the generic readers / writers too, container
+// sizes up to 5).
+var deep bool
+
 func shapeGroups(tier string) []shapeGroup {
 	var all []*tbin.Shape
 	all = append(all, tbin.Scalars()...)
 	all = append(all, tbin.T1()...)
 	all = append(all, tbin.T2()...)
+	if tier == "thorough" {
+		all = append(all, tbin.T3Small()...)
+	}
 	var gs []shapeGroup
 	chunk := 40
 	for _, kind := range []string{"any", "desc", "skip"} {
 		src := all
-		if kind == "skip" {
+		if kind == "skip" && tier != "thorough" {
 			src = append(append([]*tbin.Shape{}, all...), tbin.T3Small()...)
 		}
 		for i := 0; i < len(src); i += chunk {
@@ -76,10 +85,58 @@ func shapeGroups(tier string) []shapeGroup {
 
 func (check) Groups(tier string, seed int64) []string {
 	g := []string{"bool-byte", "i16", "i32", "i64", "double", "strings", "headers", "envelope", "pooled-objects", "binary-encoding"}
-	for _, sg := range shapeGroups(tier) {
+	sgs := shapeGroups(tier)
+	for _, sg := range sgs {
 		g = append(g, sg.name)
 	}
+	if tier == "thorough" {
+		for hi := 0; hi < 256; hi++ {
+			g = append(g, fmt.Sprintf("i32-all/%02x", hi))
+		}
+	}
 	return g
+}
+
+// enumI32All: every i32 with the given top byte, one case per second byte (65536 values each), through
+// WriteI32/ReadI32, WriteInt/ReadInt(I32) and the BinaryEncoding twins against the big-endian reference.
+func enumI32All(hi int, yield func(core.Case) bool) {
+	for b2 := 0; b2 < 256; b2++ {
+		base := uint32(hi)<<24 | uint32(b2)<<16
+		if !yield(mk("i32-block", fmt.Sprintf("%08x..%08x", base, base|0xffff), func(r *core.Result) {
+			p := &thrift.BinaryProtocol{Buf: make([]byte, 0, 16)}
+			q := &thrift.BinaryProtocol{}
+			enc := thrift.BinaryEncoding{}
+			var ref, eb [4]byte
+			bad := 0
+			for lo := uint32(0); lo < 65536 && bad < 3; lo++ {
+				u := base | lo
+				x := int32(u)
+				ref[0], ref[1], ref[2], ref[3] = byte(u>>24), byte(u>>16), byte(u>>8), byte(u)
+				p.Buf = p.Buf[:0]
+				e1 := p.WriteI32(x)
+				e2 := p.WriteInt(thrift.I32, int(x))
+				if e1 != nil || e2 != nil || len(p.Buf) != 8 || !bytes.Equal(p.Buf[:4], ref[:]) || !bytes.Equal(p.Buf[4:], ref[:]) {
+					r.Add("i32-block|bytes-differ", "WriteI32 / WriteInt(I32) of %d: %x err %v %v want %x twice", x, p.Buf, e1, e2, ref)
+					bad++
+				}
+				q.Buf, q.Read = p.Buf, 0
+				g1, e1 := q.ReadI32()
+				g2, e2 := q.ReadInt(thrift.I32)
+				if e1 != nil || e2 != nil || g1 != x || g2 != int(x) || q.Read != 8 {
+					r.Add("i32-block|readback-differs", "ReadI32 / ReadInt(I32) of %x: %d %d err %v %v cursor %d", ref, g1, g2, e1, e2, q.Read)
+					bad++
+				}
+				enc.EncodeInt32(eb[:], x)
+				if eb != ref || enc.DecodeInt32(ref[:]) != x {
+					r.Add("i32-block|encoding-twin-differs", "EncodeInt32(%d) = %x, DecodeInt32(%x) = %d", x, eb, ref, enc.DecodeInt32(ref[:]))
+					bad++
+				}
+			}
+			r.Count("values", 65536)
+		})) {
+			return
+		}
+	}
 }
 
 func i64Family() []int64 {
@@ -91,10 +148,28 @@ func i64Family() []int64 {
 			out = append(out, v)
 		}
 	}
+	dmax := int64(2)
+	if deep {
+		dmax = 16
+	}
 	for k := 0; k < 64; k++ {
-		for d := int64(-2); d <= 2; d++ {
+		for d := -dmax; d <= dmax; d++ {
 			add(int64(1)<<uint(k) + d)
 			add(-(int64(1) << uint(k)) + d)
+		}
+	}
+	if deep {
+		// every value with at most two non-zero bytes over a byte alphabet
+		al := []uint64{0x01, 0x7f, 0x80, 0xff, 0x55, 0xaa}
+		for i := 0; i < 8; i++ {
+			for _, a := range al {
+				add(int64(a << uint(8*i)))
+				for j := i + 1; j < 8; j++ {
+					for _, b := range al {
+						add(int64(a<<uint(8*i) | b<<uint(8*j)))
+					}
+				}
+			}
 		}
 	}
 	p := int64(1)
@@ -117,6 +192,12 @@ func i64Family() []int64 {
 func f64Family() []float64 {
 	var out []float64
 	mants := []uint64{0, 1, (1 << 52) - 1, 1 << 51, 0x5555555555555}
+	if deep {
+		for b := uint(1); b < 52; b++ {
+			mants = append(mants, 1<<b)
+		}
+		mants = append(mants, 0xaaaaaaaaaaaaa, 0xfffffffffffff-1, 0x8000000000001, 0x00000000000ff, 0xff00000000000, 0x00000ffff0000, 3, 7, 0xf0f0f0f0f0f0f, 0x0f0f0f0f0f0f0)
+	}
 	for s := uint64(0); s < 2; s++ {
 		for e := uint64(0); e < 2048; e++ {
 			for _, m := range mants {
@@ -134,6 +215,12 @@ func strFamily() [][]byte {
 		lens = append(lens, i)
 	}
 	lens = append(lens, 4095, 4096, 4097)
+	if deep {
+		for i := 41; i <= 300; i++ {
+			lens = append(lens, i)
+		}
+		lens = append(lens, 8191, 8192, 8193, 65535, 65536, 65537, 1<<20-1, 1<<20, 1<<20+1)
+	}
 	for _, n := range lens {
 		a := bytes.Repeat([]byte{'a'}, n)
 		b := make([]byte, n)
@@ -207,6 +294,11 @@ func scalarCase(op string, v *tbin.Val, write func(p *thrift.BinaryProtocol) err
 }
 
 func (check) Enumerate(tier string, seed int64, group int, yield func(core.Case) bool) {
+	deep = tier == "thorough"
+	if nfix := gFixed + len(shapeGroups(tier)); deep && group >= nfix {
+		enumI32All(group-nfix, yield)
+		return
+	}
 	switch group {
 	case gBoolByte:
 		for _, b := range []bool{false, true} {
@@ -323,8 +415,12 @@ func (check) Enumerate(tier string, seed int64, group int, yield func(core.Case)
 	default:
 		sgs := shapeGroups(tier)
 		sg := sgs[group-gFixed]
+		maxN := 3
+		if deep {
+			maxN = 5
+		}
 		for _, s := range sg.shapes {
-			for n := 0; n <= 3; n++ {
+			for n := 0; n <= maxN; n++ {
 				if n > 1 && s.Depth() == 0 {
 					continue
 				}
